@@ -160,7 +160,9 @@ func oracleC13CLI(p *Pair, env *Env, a [][]byte) *Failure {
 			return &Failure{What: "renumber-tests --check --all verdict differs from 'a rewrite would change the file'", Detail: fmt.Sprintf("-o %s exit %d, would change: %v, input %q", out, c.exit, changed, in)}
 		}
 	}
-	c = runCLI(env, sb, nil, "-l", "disabled", "util", "renumber-tests", ruleId)
+	// (the output format is no write mode: with -o github or -o text the file is renumbered all the same)
+	outOpt := [][]string{{}, {"-o", "github"}, {"-o", "text"}, {"--output", "github"}}[len(in)%4]
+	c = runCLI(env, sb, nil, append(append([]string{"-l", "disabled"}, outOpt...), "util", "renumber-tests", ruleId)...)
 	if c.exit != 0 {
 		return &Failure{What: "renumber-tests failed on a plain file", Detail: fmt.Sprintf("exit %d %s", c.exit, c.stderr)}
 	}
@@ -281,7 +283,8 @@ func oracleC13All(p *Pair, env *Env, a [][]byte) *Failure {
 	if (c.exit != 0) != anyChange {
 		return &Failure{What: "renumber-tests --check --all verdict differs from 'some file would change'", Detail: fmt.Sprintf("exit %d, would change: %v", c.exit, anyChange)}
 	}
-	c = runCLI(env, sb, nil, "-l", "disabled", "util", "renumber-tests", "-a")
+	outOpt := [][]string{{"-o", "github"}, {}, {"-o", "text"}}[len(files)%3]
+	c = runCLI(env, sb, nil, append(append([]string{"-l", "disabled"}, outOpt...), "util", "renumber-tests", "-a")...)
 	if c.exit != 0 {
 		return &Failure{What: "renumber-tests --all failed on plain files", Detail: fmt.Sprintf("exit %d %s", c.exit, tail(string(c.stderr), 300))}
 	}
